@@ -52,6 +52,12 @@ def gen_cases(rng, tier):
   for i in range(n):
     xs, ys = gen_data(rng)
     cases.append({"kind": "table", "x": xs, "y": ys, "seed": rng.randrange(1 << 30)})
+  # ordinary data closed by a far-away sentinel point ("1e200 0"): the spline fit overflows for spans beyond ~1e154
+  for k in range(6 if tier == "quick" else 30):
+    xs, ys = gen_data(rng, rng.choice([4, 6, 9]))
+    xs = list(xs) + [10.0 ** rng.choice([155, 160, 200, 250, 300])]
+    ys = list(ys) + [0.0]
+    cases.append({"kind": "table", "x": xs, "y": ys, "seed": rng.randrange(1 << 30), "huge_span": 1})
   for i in range(n):
     xs, ys = gen_data(rng, rng.choice([2, 3, 4, 7, 20, 100]))
     if i % 9 == 0:
@@ -154,7 +160,24 @@ def run_table(case, ctx):
     f_x_y = routes.read_config(head + "x : " + txt_x + "\ny : " + txt_y + "\n").potentials[0].potentialFunction
   except Exception as e:
     et, fn = exc_sig(e)
+    if case.get("huge_span") and et in ("ValueError", "Table_Form_Exception", "ConfigurationException", "ConfigParserException"):
+      # an abscissa span beyond ~1e154 cannot be interpolated in doubles (the spline fit squares it): refusing such data
+      # is inside the property's domain rule; tabulating nan for it is not
+      ctx.count("huge_span_refused")
+      ctx.nontrivial(True)
+      return
     ctx.violation("exception", "table form could not be built: %s %s" % (et, e), what="exception", exc=et, func=fn)
+    return
+  if case.get("huge_span"):
+    ctx.cls("table_x_span_beyond_1e154")
+    for nm, f in (("Cubic_Spline_Table_Form", f_api), ("potable xy", f_xy), ("potable x/y", f_x_y)):
+      for a, b in zip(xs, ys):
+        v = f(a)
+        ctx.count("knot_points")
+        if not (abs(v - b) <= 1e-6 * scale):
+          ctx.violation("data_point", "%s: f(%r) = %r, tabulated y = %r (abscissae %r ... %r)" % (nm, a, v, b, xs[0], xs[-1]), what="data_point", mech="huge_span")
+          return
+    ctx.nontrivial(True)
     return
   ref = InterpolatedUnivariateSpline(xs, ys, k=3)
   d1r, d2r = ref.derivative(1), ref.derivative(2)
@@ -164,7 +187,7 @@ def run_table(case, ctx):
     for nm, f in funcs:
       v = f(a)
       ctx.count("knot_points")
-      if abs(v - b) > 1e-9 * scale:
+      if not (abs(v - b) <= 1e-9 * scale):      # (written so that nan fails)
         ctx.violation("data_point", "%s: f(%r) = %r, tabulated y = %r" % (nm, a, v, b), what="data_point")
         return
   # outside the range: exactly zero (value and derivatives)
